@@ -112,6 +112,25 @@ def build():
         U.fragment(MG_C, 'MoveGen_checkEvasions_tiled' + sfx, r'const U64 occupied = pos\.occupiedBB\(\);', A_HEAD, params=[('Position', 'pos', True), ('MoveList', 'moveList', True)],
                    cls='MoveGen', is_static=True, tsubst={'wtm': val},
                    epilogue='\n    U64 validTargets = MoveGen_checkEvasions_head%s(pos, occupied);\n    MoveGen_checkEvasions_pieces%s(pos, moveList, validTargets, occupied);\n    MoveGen_checkEvasions_pawns%s(pos, moveList, validTargets, occupied);\n' % (sfx, sfx, sfx), **EV_KW)
+    # MoveGen::pseudoLegalMoves<wtm>: same scheme, five fragments (sliders, king incl. castling, knights, pawns) + composition
+    PL_KW = dict(within='MoveGen::pseudoLegalMoves', within_kw=dict(nparams=2, template=True))
+    B_SL, B_KING, B_KN, B_PAWNS = r'U64 squares = pos\.pieceTypeBB\(MyColor::QUEEN\);', r'\{\s*Square sq = pos\.getKingSq\(wtm\);', r'U64 knights = pos\.pieceTypeBB\(MyColor::KNIGHT\);', r'const U64 pawns = '
+    pl = find_function(U.src(MG_C), 'MoveGen::pseudoLegalMoves', nparams=2, template=True)
+    mh = re.search(B_SL, pl.body)
+    if not mh or norm(pl.body[:mh.start()]) != 'using MyColor = ColorTraits<wtm>; const U64 occupied = pos.occupiedBB();':
+        raise ExtractError('tiling pin changed: statements of MoveGen::pseudoLegalMoves before the queen loop')
+    PLP = [('Position', 'pos', True), ('MoveList', 'moveList', True), ('U64', 'occupied', False)]
+    USING1 = 'using MyColor = ColorTraits<wtm>;\n'
+    for sfx, val in (('_w', 'true'), ('_b', 'false')):
+        frs = [U.fragment(MG_C, 'MoveGen_pseudoLegalMoves_sliders' + sfx, B_SL, B_KING, params=PLP, cls='MoveGen', is_static=True, tsubst={'wtm': val}, prologue=USING1, **PL_KW),
+               U.fragment(MG_C, 'MoveGen_pseudoLegalMoves_king' + sfx, B_KING, B_KN, params=PLP, cls='MoveGen', is_static=True, tsubst={'wtm': val}, prologue=USING1, **PL_KW),
+               U.fragment(MG_C, 'MoveGen_pseudoLegalMoves_knights' + sfx, B_KN, B_PAWNS, params=PLP, cls='MoveGen', is_static=True, tsubst={'wtm': val}, prologue=USING1, **PL_KW),
+               U.fragment(MG_C, 'MoveGen_pseudoLegalMoves_pawns' + sfx, B_PAWNS, None, params=PLP, cls='MoveGen', is_static=True, tsubst={'wtm': val}, prologue=USING1, **PL_KW)]
+        for fr in frs:
+            U.tr.classes['MoveGen'].methods.setdefault((fr.cname, len(fr.params), False), {})[''] = fr
+        U.fragment(MG_C, 'MoveGen_pseudoLegalMoves_tiled' + sfx, r'const U64 occupied = pos\.occupiedBB\(\);', B_SL, params=[('Position', 'pos', True), ('MoveList', 'moveList', True)],
+                   cls='MoveGen', is_static=True, tsubst={'wtm': val},
+                   epilogue='\n' + ''.join('    %s(pos, moveList, occupied);\n' % fr.cname for fr in frs), **PL_KW)
     for gen in ('pseudoLegalMoves', 'checkEvasions', 'pseudoLegalCaptures', 'pseudoLegalCapturesAndChecks'):
         P(MG_C, 'MoveGen::' + gen, nparams=2, template=True, tsubst={'wtm': 'true'}, suffix='_w', as_static=True)
         P(MG_C, 'MoveGen::' + gen, nparams=2, template=True, tsubst={'wtm': 'false'}, suffix='_b', as_static=True)
@@ -213,7 +232,7 @@ struct Position ghost_pos1;
 /* ghost move monitor (DESIGN section 3): the generators append only through MoveList::addMove; ghost_hits counts how often
    the arbitrary move ghost_m has been appended */
 struct Move ghost_m; int ghost_hits;
-int ghost_hits0, ghost_ksq; U64 ghost_tg, ghost_Q0, ghost_R0, ghost_B0, ghost_N0; _Bool ghost_tQ, ghost_tR, ghost_tB, ghost_tN, ghost_tK;
+int ghost_hits0, ghost_hitsN, ghost_ksq; U64 ghost_tg, ghost_Q0, ghost_R0, ghost_B0, ghost_N0; _Bool ghost_tQ, ghost_tR, ghost_tB, ghost_tN, ghost_tK;
 #define GM_IS(f, t, p) ((f) == ghost_m.from_ && (t) == ghost_m.to_ && (p) == ghost_m.promoteTo_)
 #define GM_TO_IN(mask) (ghost_m.to_ >= 0 && ghost_m.to_ < 64 && ((((U64)(mask)) >> ghost_m.to_) & 1) != 0)
 #define GM_OK (ghost_m.from_ >= 0 && ghost_m.from_ < 64 && ghost_m.to_ >= 0 && ghost_m.to_ < 64 && ghost_m.promoteTo_ >= 0 && ghost_m.promoteTo_ <= 12)
@@ -244,6 +263,8 @@ static _Bool spec_evasion_candidate_vt(const struct Position* p, const struct Mo
     if ((pc == Piece_WPAWN || pc == Piece_BPAWN) && m->to_ == p->epSquare && (m->to_ & 7) != (m->from_ & 7)) return 1;
     return (vt & BITM(m->to_)) != 0; }
 static _Bool spec_evasion_candidate(const struct Position* p, const struct Move* m) { return spec_evasion_candidate_vt(p, m, spec_evasion_targets(p)); }
+#define GM_FROM_IS(p, pc) ((p)->squares[ghost_m.from_] == (pc))
+#define GM_FROM_OWN(p) ((p)->whiteMove ? ((p)->squares[ghost_m.from_] >= Piece_WKING && (p)->squares[ghost_m.from_] <= Piece_WPAWN) : ((p)->squares[ghost_m.from_] >= Piece_BKING && (p)->squares[ghost_m.from_] <= Piece_BPAWN))
 #define GM_FROM_PAWN(p) ((p)->squares[ghost_m.from_] == Piece_WPAWN || (p)->squares[ghost_m.from_] == Piece_BPAWN)
 /* per piece kind: is ghost_m the move "piece of that kind on ghost_m.from_ goes to ghost_m.to_" as the generator should emit it,
    given the target filter tg (all ones for the plain generator) */
@@ -263,6 +284,30 @@ static _Bool spec_pawn_evasion(const struct Position* p, const struct Move* m, U
     return (vt & BITM(m->to_)) != 0; }
 #define DOMAIN_COUNTS(p) (spec_popcount((p)->whiteBB_) <= 16 && spec_popcount((p)->blackBB_) <= 16)
 #pragma CPROVER check pop
+#ifdef COMPOSE_UF
+/* Composition groups only (sequential composition of fragment contracts): the pure spec functions of the position are abstracted as
+   uninterpreted functions of the position object and their scalar arguments, so the composition is proved for EVERY interpretation of
+   them (in particular the real ones).  Valid because no fragment contract assigns *pos (frame clauses proved per fragment).  Without
+   this every contract instance re-evaluates the spec functions and the solver has to prove the copies equal (did not finish in 50 min). */
+_Bool __CPROVER_uninterpreted_wf_bb(const struct Position*); _Bool __CPROVER_uninterpreted_men_ok(const struct Position*); _Bool __CPROVER_uninterpreted_wf_rights(const struct Position*);
+_Bool __CPROVER_uninterpreted_in_check_b(const int*, _Bool); U64 __CPROVER_uninterpreted_occ(const int*); int __CPROVER_uninterpreted_king_sq(const int*, _Bool);
+U64 __CPROVER_uninterpreted_ev_targets(const struct Position*);
+_Bool __CPROVER_uninterpreted_ev_cand(const struct Position*, int, int, int, U64); _Bool __CPROVER_uninterpreted_pawn_ev(const struct Position*, int, int, int, U64);
+_Bool __CPROVER_uninterpreted_gm_slider(const struct Position*, int, U64, int, int, int);
+_Bool __CPROVER_uninterpreted_pseudo_legal(const struct Position*, int, int, int);
+#define wf_bb(p) __CPROVER_uninterpreted_wf_bb(p)
+#define men_ok(p) __CPROVER_uninterpreted_men_ok(p)
+#define wf_rights(p) __CPROVER_uninterpreted_wf_rights(p)
+#define spec_in_check_b(b, w) __CPROVER_uninterpreted_in_check_b(b, w)
+#define spec_occ(b) __CPROVER_uninterpreted_occ(b)
+#define spec_king_sq(b, w) __CPROVER_uninterpreted_king_sq(b, w)
+#define spec_evasion_targets(p) __CPROVER_uninterpreted_ev_targets(p)
+#define spec_evasion_candidate_vt(p, m, vt) __CPROVER_uninterpreted_ev_cand(p, (m)->from_, (m)->to_, (m)->promoteTo_, vt)
+#define spec_evasion_candidate(p, m) spec_evasion_candidate_vt(p, m, spec_evasion_targets(p))   /* its definition */
+#define spec_pawn_evasion(p, m, vt) __CPROVER_uninterpreted_pawn_ev(p, (m)->from_, (m)->to_, (m)->promoteTo_, vt)
+#define spec_gm_slider(p, kind, tg) __CPROVER_uninterpreted_gm_slider(p, kind, tg, ghost_m.from_, ghost_m.to_, ghost_m.promoteTo_)
+#define spec_pseudo_legal(p, m) __CPROVER_uninterpreted_pseudo_legal(p, (m)->from_, (m)->to_, (m)->promoteTo_)
+#endif
 '''
 
 _POS = '__CPROVER_is_fresh(pos, sizeof(*pos))'
@@ -397,6 +442,9 @@ for _k in ('MoveGen_checkEvasions_w', 'MoveGen_checkEvasions_b'):
     # ghost values are *defined* by (assumed) equalities in the precondition: spec functions must not be called from ghost code in the body
     CONTRACTS[_k]['requires'] += CONTRACTS[_k].pop('ghost_defs')
 
+# the occupancy accessor agrees with the board (needs the bitboards to be consistent with the board)
+CONTRACTS['Position_occupiedBB'] = {'requires': ['__CPROVER_is_fresh(self, sizeof(*self))', 'wf_bb(self)'], 'assigns': [],
+                                    'ensures': ['__CPROVER_return_value == spec_occ(self->squares)']}
 _EVPRE = ['__CPROVER_is_fresh(pos, sizeof(*pos))', 'wf_bb(pos)', 'FLAGS_OK(pos)', 'men_ok(pos)', 'wf_rights(pos)', '!spec_in_check_b(pos->squares, !pos->whiteMove)']
 for _sfx, _me in (('_w', 1), ('_b', 0)):
     _pre = _EVPRE + ['pos->whiteMove == %d' % _me]
@@ -429,6 +477,38 @@ for _sfx, _me in (('_w', 1), ('_b', 0)):
         'assigns': ['moveList->size', 'ghost_hits'],
         'ensures': ['ghost_hits == __CPROVER_old(ghost_hits) + (spec_evasion_candidate(pos, &ghost_m) ? 1 : 0)']}
 
+for _sfx, _me in (('_w', 1), ('_b', 0)):
+    _K, _Q, _R, _B, _N, _P = (('Piece_WKING', 'Piece_WQUEEN', 'Piece_WROOK', 'Piece_WBISHOP', 'Piece_WKNIGHT', 'Piece_WPAWN') if _me else
+                              ('Piece_BKING', 'Piece_BQUEEN', 'Piece_BROOK', 'Piece_BBISHOP', 'Piece_BKNIGHT', 'Piece_BPAWN'))
+    _mpre = _EVPRE + ['pos->whiteMove == %d' % _me, '__CPROVER_is_fresh(moveList, sizeof(*moveList))', 'occupied == spec_occ(pos->squares)', 'GM_OK', '0 <= ghost_hits && ghost_hits < 1000']
+    _c = _evasion_contract(bool(_me))
+    def _plpost(cond):
+        return ['ghost_hits == __CPROVER_old(ghost_hits) + (((%s) && spec_pseudo_legal(pos, &ghost_m)) ? 1 : 0)' % cond]
+    _gsl = ['ghost_hits0 == ghost_hits', 'ghost_Q0 == pos->pieceTypeBB_[%s] && ghost_R0 == pos->pieceTypeBB_[%s] && ghost_B0 == pos->pieceTypeBB_[%s]' % (_Q, _R, _B),
+            'ghost_tQ == spec_gm_slider(pos, Piece_WQUEEN, ~0ULL)', 'ghost_tR == spec_gm_slider(pos, Piece_WROOK, ~0ULL)', 'ghost_tB == spec_gm_slider(pos, Piece_WBISHOP, ~0ULL)']
+    _gkn = ['ghost_hitsN == ghost_hits', 'ghost_N0 == pos->pieceTypeBB_[%s]' % _N, 'ghost_tN == spec_gm_slider(pos, Piece_WKNIGHT, ~0ULL)']
+    # each section emits exactly the pseudo-legal moves of its piece kinds, each once
+    CONTRACTS['MoveGen_pseudoLegalMoves_sliders' + _sfx] = {
+        'requires': _mpre + _gsl, 'assigns': ['moveList->size', 'ghost_hits'],
+        'ensures': _plpost('GM_FROM_IS(pos, %s) || GM_FROM_IS(pos, %s) || GM_FROM_IS(pos, %s)' % (_Q, _R, _B)),
+        'loops': {k: _c['loops'][k] for k in (0, 1, 2)}}
+    CONTRACTS['MoveGen_pseudoLegalMoves_king' + _sfx] = {
+        'requires': _mpre, 'assigns': ['moveList->size', 'ghost_hits'], 'ensures': _plpost('GM_FROM_IS(pos, %s)' % _K)}
+    CONTRACTS['MoveGen_pseudoLegalMoves_knights' + _sfx] = {
+        'requires': _mpre + _gkn, 'assigns': ['moveList->size', 'ghost_hits'], 'ensures': _plpost('GM_FROM_IS(pos, %s)' % _N),
+        'loops': {0: {'assigns': 'knights, moveList->size, ghost_hits',
+                      'invariant': ['(knights & ~ghost_N0) == 0', 'ghost_hits == ghost_hitsN + (((((ghost_N0 & ~knights) >> ghost_m.from_) & 1) && ghost_tN) ? 1 : 0)']}}}
+    CONTRACTS['MoveGen_pseudoLegalMoves_pawns' + _sfx] = {
+        'requires': _mpre, 'assigns': ['moveList->size', 'ghost_hits'], 'ensures': _plpost('GM_FROM_IS(pos, %s)' % _P)}
+    # composition (COMPOSE_UF): the list is exactly the set of pseudo-legal moves (of own pieces: lemma pl_own), each once.
+    # ghost_hits0 / ghost_hitsN are the hit counts at the entry of the slider / knight sections: the first is the entry value, the second is
+    # determined by the contracts of the sections before it (an equation over the ghost values, no restriction of the program state)
+    CONTRACTS['MoveGen_pseudoLegalMoves_tiled' + _sfx] = {
+        'requires': _EVPRE + ['pos->whiteMove == %d' % _me, '__CPROVER_is_fresh(moveList, sizeof(*moveList))', 'GM_OK', '0 <= ghost_hits && ghost_hits < 900'] + _gsl + _gkn[1:]
+                    + ['ghost_hitsN == ghost_hits + (((GM_FROM_IS(pos, %s) || GM_FROM_IS(pos, %s) || GM_FROM_IS(pos, %s) || GM_FROM_IS(pos, %s)) && spec_pseudo_legal(pos, &ghost_m)) ? 1 : 0)' % (_Q, _R, _B, _K)],
+        'assigns': ['moveList->size', 'ghost_hits'],
+        'ensures': _plpost('GM_FROM_OWN(pos)')}
+
 HARNESS = posunit.HARNESS.split('void h_setPiece')[0] + r'''
 void h_sqAttacked_w(void) { struct Position* p; int sq; U64 occ; havoc_tables(); MoveGen_sqAttacked_w(p, sq, occ); CANARY_POINT; }
 void h_sqAttacked_b(void) { struct Position* p; int sq; U64 occ; havoc_tables(); MoveGen_sqAttacked_b(p, sq, occ); CANARY_POINT; }
@@ -439,7 +519,7 @@ void h_givesCheck(void) { struct Position* p; struct Move* m; havoc_tables(); __
 void h_isLegal(void) { struct Position* p; struct Move* m; _Bool ic = (nondet_int() != 0); havoc_tables(); __CPROVER_havoc_object(&ghost_pos1); MoveGen_isLegal(p, m, ic); CANARY_POINT; }
 '''
 HARNESS += r'''
-static void havoc_gm(void) { __CPROVER_havoc_object(&ghost_m); ghost_hits = nondet_int(); ghost_hits0 = nondet_int(); ghost_ksq = nondet_int(); ghost_tg = nondet_u64(); ghost_Q0 = nondet_u64(); ghost_R0 = nondet_u64(); ghost_B0 = nondet_u64(); ghost_N0 = nondet_u64();
+static void havoc_gm(void) { __CPROVER_havoc_object(&ghost_m); ghost_hits = nondet_int(); ghost_hits0 = nondet_int(); ghost_hitsN = nondet_int(); ghost_ksq = nondet_int(); ghost_tg = nondet_u64(); ghost_Q0 = nondet_u64(); ghost_R0 = nondet_u64(); ghost_B0 = nondet_u64(); ghost_N0 = nondet_u64();
     ghost_tQ = (nondet_int() != 0); ghost_tR = (nondet_int() != 0); ghost_tB = (nondet_int() != 0); ghost_tN = (nondet_int() != 0); ghost_tK = (nondet_int() != 0); }
 void h_addMovesByMask(void) { struct MoveList* ml; int sq0; U64 mask; havoc_tables(); havoc_gm(); MoveGen_addMovesByMask(ml, sq0, mask); CANARY_POINT; }
 void h_addPawnDouble(void) { struct MoveList* ml; int d; U64 mask; havoc_tables(); havoc_gm(); MoveGen_addPawnDoubleMovesByMask(ml, mask, d); CANARY_POINT; }
@@ -449,6 +529,20 @@ void h_addPawnMoves_b(void) { struct MoveList* ml; int d; U64 mask; _Bool all = 
 HARNESS += r'''
 void h_evasion_pawns_w(void) { struct Position* p; struct MoveList* ml; U64 vt, occ; havoc_tables(); havoc_gm(); MoveGen_checkEvasions_pawns_w(p, ml, vt, occ); CANARY_POINT; }
 void h_evasion_pawns_b(void) { struct Position* p; struct MoveList* ml; U64 vt, occ; havoc_tables(); havoc_gm(); MoveGen_checkEvasions_pawns_b(p, ml, vt, occ); CANARY_POINT; }
+void h_pl_sliders_w(void) { struct Position* p; struct MoveList* ml; U64 occ; havoc_tables(); havoc_gm(); MoveGen_pseudoLegalMoves_sliders_w(p, ml, occ); CANARY_POINT; }
+void h_pl_sliders_b(void) { struct Position* p; struct MoveList* ml; U64 occ; havoc_tables(); havoc_gm(); MoveGen_pseudoLegalMoves_sliders_b(p, ml, occ); CANARY_POINT; }
+void h_pl_king_w(void) { struct Position* p; struct MoveList* ml; U64 occ; havoc_tables(); havoc_gm(); MoveGen_pseudoLegalMoves_king_w(p, ml, occ); CANARY_POINT; }
+void h_pl_king_b(void) { struct Position* p; struct MoveList* ml; U64 occ; havoc_tables(); havoc_gm(); MoveGen_pseudoLegalMoves_king_b(p, ml, occ); CANARY_POINT; }
+void h_pl_knights_w(void) { struct Position* p; struct MoveList* ml; U64 occ; havoc_tables(); havoc_gm(); MoveGen_pseudoLegalMoves_knights_w(p, ml, occ); CANARY_POINT; }
+void h_pl_knights_b(void) { struct Position* p; struct MoveList* ml; U64 occ; havoc_tables(); havoc_gm(); MoveGen_pseudoLegalMoves_knights_b(p, ml, occ); CANARY_POINT; }
+void h_pl_pawns_w(void) { struct Position* p; struct MoveList* ml; U64 occ; havoc_tables(); havoc_gm(); MoveGen_pseudoLegalMoves_pawns_w(p, ml, occ); CANARY_POINT; }
+void h_pl_pawns_b(void) { struct Position* p; struct MoveList* ml; U64 occ; havoc_tables(); havoc_gm(); MoveGen_pseudoLegalMoves_pawns_b(p, ml, occ); CANARY_POINT; }
+void h_pl_tiled_w(void) { struct Position* p; struct MoveList* ml; havoc_tables(); havoc_gm(); MoveGen_pseudoLegalMoves_tiled_w(p, ml); CANARY_POINT; }
+void h_pl_tiled_b(void) { struct Position* p; struct MoveList* ml; havoc_tables(); havoc_gm(); MoveGen_pseudoLegalMoves_tiled_b(p, ml); CANARY_POINT; }
+/* lemma (real spec): a pseudo-legal move moves a piece of the side to move */
+void h_lemma_pl_own(void) { struct Position p; __CPROVER_havoc_object(&p); havoc_gm(); __CPROVER_assume(FLAGS_OK(&p) && GM_OK);
+    __CPROVER_assert(!spec_pseudo_legal(&p, &ghost_m) || GM_FROM_OWN(&p), "lemma: pseudo-legal moves move an own piece"); CANARY_POINT; }
+void h_occupiedBB(void) { struct Position* p; havoc_tables(); Position_occupiedBB(p); CANARY_POINT; }
 void h_evasion_head_w(void) { struct Position* p; U64 occ; havoc_tables(); MoveGen_checkEvasions_head_w(p, occ); CANARY_POINT; }
 void h_evasion_head_b(void) { struct Position* p; U64 occ; havoc_tables(); MoveGen_checkEvasions_head_b(p, occ); CANARY_POINT; }
 void h_evasion_pieces_w(void) { struct Position* p; struct MoveList* ml; U64 vt, occ; havoc_tables(); havoc_gm(); MoveGen_checkEvasions_pieces_w(p, ml, vt, occ); CANARY_POINT; }
@@ -478,12 +572,27 @@ for _sfx in ('_w', '_b'):
     GROUPS.append(Group('checkEvasions_pawns' + _sfx, 'h_evasion_pawns' + _sfx, enforce='MoveGen_checkEvasions_pawns' + _sfx,
                         replace=('MoveGen_addPawnDoubleMovesByMask', 'MoveGen_addPawnMovesByMask_w', 'MoveGen_addPawnMovesByMask_b'), min_props=10, timeout=3000))
 for _sfx in ('_w', '_b'):
+    _pf = 'MoveGen_pseudoLegalMoves_'
+    GROUPS.append(Group('pseudoLegalMoves_sliders' + _sfx, 'h_pl_sliders' + _sfx, enforce=_pf + 'sliders' + _sfx, replace=_ATT + ('MoveGen_addMovesByMask', 'BitBoard_extractSquare'),
+                        loop_contracts=True, min_props=10, expect_loop_props=3, timeout=3000))
+    GROUPS.append(Group('pseudoLegalMoves_king' + _sfx, 'h_pl_king' + _sfx, enforce=_pf + 'king' + _sfx, replace=_ATT + ('MoveGen_addMovesByMask', 'MoveList_addMove', 'MoveGen_sqAttacked2'), min_props=10, timeout=3000))
+    GROUPS.append(Group('pseudoLegalMoves_knights' + _sfx, 'h_pl_knights' + _sfx, enforce=_pf + 'knights' + _sfx, replace=_ATT + ('MoveGen_addMovesByMask', 'BitBoard_extractSquare'),
+                        loop_contracts=True, min_props=10, expect_loop_props=1, timeout=3000))
+    GROUPS.append(Group('pseudoLegalMoves_pawns' + _sfx, 'h_pl_pawns' + _sfx, enforce=_pf + 'pawns' + _sfx,
+                        replace=('MoveGen_addPawnDoubleMovesByMask', 'MoveGen_addPawnMovesByMask_w', 'MoveGen_addPawnMovesByMask_b'), min_props=10, timeout=3000))
+    GROUPS.append(Group('pseudoLegalMoves_tiled' + _sfx, 'h_pl_tiled' + _sfx, enforce=_pf + 'tiled' + _sfx, defines=('COMPOSE_UF=1',),
+                        replace=('Position_occupiedBB',) + tuple(_pf + x + _sfx for x in ('sliders', 'king', 'knights', 'pawns')), min_props=5, timeout=3000,
+                        note='composition of the four fragment contracts; spec functions uninterpreted (COMPOSE_UF)'))
+GROUPS.append(Group('lemma_pl_own', 'h_lemma_pl_own', min_props=1))
+GROUPS.append(Group('occupiedBB', 'h_occupiedBB', enforce='Position_occupiedBB', min_props=2))
+for _sfx in ('_w', '_b'):
     GROUPS.append(Group('checkEvasions_head' + _sfx, 'h_evasion_head' + _sfx, enforce='MoveGen_checkEvasions_head' + _sfx,
                         replace=_ATT + ('BitBoard_firstSquare', 'BitBoard_squaresBetween'), min_props=10, timeout=3000))
     GROUPS.append(Group('checkEvasions_pieces' + _sfx, 'h_evasion_pieces' + _sfx, enforce='MoveGen_checkEvasions_pieces' + _sfx,
                         replace=_ATT + ('MoveGen_addMovesByMask', 'BitBoard_extractSquare'), loop_contracts=True, min_props=10, expect_loop_props=4, timeout=3000))
-    GROUPS.append(Group('checkEvasions_tiled' + _sfx, 'h_evasion_tiled' + _sfx, enforce='MoveGen_checkEvasions_tiled' + _sfx,
-                        replace=('MoveGen_checkEvasions_head' + _sfx, 'MoveGen_checkEvasions_pieces' + _sfx, 'MoveGen_checkEvasions_pawns' + _sfx), min_props=5, timeout=3000))
+    GROUPS.append(Group('checkEvasions_tiled' + _sfx, 'h_evasion_tiled' + _sfx, enforce='MoveGen_checkEvasions_tiled' + _sfx, defines=('COMPOSE_UF=1',),
+                        replace=('Position_occupiedBB', 'MoveGen_checkEvasions_head' + _sfx, 'MoveGen_checkEvasions_pieces' + _sfx, 'MoveGen_checkEvasions_pawns' + _sfx), min_props=5, timeout=3000,
+                        note='composition of the three fragment contracts; spec functions uninterpreted (COMPOSE_UF)'))
 for _sfx in ('_w', '_b'):
     GROUPS.append(Group('checkEvasions' + _sfx, 'h_checkEvasions' + _sfx, enforce='MoveGen_checkEvasions' + _sfx, replace=_ATT + _HELP, loop_contracts=True,
                         min_props=20, expect_loop_props=4, timeout=3000))
